@@ -1,6 +1,7 @@
 //! unit: u06b
-//! properties: C06
+//! properties: C06 C07
 //! note: revocation keys: the private key a justice transaction is signed with (chan_utils::derive_private_revocation_key) is the private key of the revocation public key the revoked outputs' scripts name (RevocationKey::from_basepoint), both being BOLT 3's revocationpubkey formula; sign_justice_revoked_output signs, with that key, the sighash of the given input under the to_local script built from our revocation basepoint, the delay we imposed and the counterparty's delayed-payment basepoint
+//! trusted: htlc_output_value: HTLCOutputInCommitment::to_bitcoin_amount and the two weight functions are extracted whole; RevokedHTLCOutput::build: the weight and amount expressions of the struct literal (R15 slice with captures); PackageSolvingData::finalize_input: the amount arguments of the two sign_counterparty_htlc_transaction calls (captures); Amount/ChannelTypeFeatures/HTLCOutputInCommitment skeletons
 //! trusted: env: secp256k1 is uninterpreted: secret keys, public keys and scalars carry abstract ids; pt(k) is the public key of k, smul / sadd and pmul / padd the tweak operations on secret and public keys, ser the 33-byte serialization, scalar_of the scalar read from 32 bytes, key_bytes the bytes of a secret key; Sha256's engine is a stub that records the concatenation of its inputs in a ghost field, Sha256::from_engine(..).to_byte_array() is the uninterpreted sha256_spec of those; `.expect(msg)` on the tweak results is vstd's Result::expect
 //! trusted: axioms (external_body proof fns, the group homomorphism pt): pt(smul(k, t)) == pmul(pt(k), t); pt(sadd(k, t)) == padd(pt(k), pt_of_scalar(t)); scalar_of(key_bytes(k)) names k itself (pt_of_scalar(scalar_of(key_bytes(k))) == pt(k))
 //! assume: the operations the source `expect`s never to fail do not fail: a SHA256 output is a valid scalar, multiplying a key by a hash succeeds, and the final addition is not the point at infinity (probability about 2^-128 each; the source says the same in its expect messages)
@@ -284,6 +285,63 @@ impl ChannelMonitorImpl {
     per_commitment_point, per_commitment_key, tx.output[0].value,
 //@end
 }
+}
+// ---- the amount a claim on an HTLC output is signed over is the value the commitment transaction gave that output -----------
+pub mod htlc_output_value {
+use vstd::prelude::*;
+pub struct Amount(pub u64);
+impl Amount { pub const fn from_sat(s: u64) -> (r: Amount) ensures r.0 == s { Amount(s) } }
+pub struct ChannelTypeFeatures { pub anchors_zero_fee_htlc_tx: bool }
+impl ChannelTypeFeatures { #[verifier::external_body] pub fn supports_anchors_zero_fee_htlc_tx(&self) -> (r: bool) ensures r == self.anchors_zero_fee_htlc_tx { unimplemented!() } }
+pub struct ChannelTransactionParameters { pub channel_type_features: ChannelTypeFeatures }
+pub struct HTLCOutputInCommitment { pub offered: bool, pub amount_msat: u64, pub cltv_expiry: u32 }
+// the value of the HTLC's output on the commitment transaction (BOLT 3: the amount rounded DOWN to whole satoshis)
+pub open spec fn output_value_sat(h: HTLCOutputInCommitment) -> u64 { h.amount_msat / 1000 }
+impl HTLCOutputInCommitment {
+//@extract lightning/src/ln/chan_utils.rs :: impl HTLCOutputInCommitment :: fn to_bitcoin_amount
+//@ret r
+//@ensures P C06,C07,C01 the-commitment-transaction-gives-an-htlc-output-its-amount-rounded-down-to-whole-satoshis
+    r.0 == output_value_sat(*self),
+//@end
+}
+//@extract lightning/src/chain/package.rs :: fn weight_revoked_offered_htlc
+//@ret r
+//@ensures A
+    r == 243 + (if channel_type_features.anchors_zero_fee_htlc_tx { 3int } else { 0 }),
+//@end
+//@extract lightning/src/chain/package.rs :: fn weight_revoked_received_htlc
+//@ret r
+//@ensures A
+    r == 249 + (if channel_type_features.anchors_zero_fee_htlc_tx { 3int } else { 0 }),
+//@end
+//@extract lightning/src/chain/package.rs :: impl RevokedHTLCOutput :: fn build
+//@slice R15
+    let weight = $w:seq; let directed_params = $dp:seq; $mid:any RevokedHTLCOutput { $f1:any weight, amount: $a:seq, htlc, $f2:any }
+//@with
+    fn revoked_htlc_claim_weight_and_amount(htlc: &HTLCOutputInCommitment, channel_parameters: &ChannelTransactionParameters) -> (u64, u64) { let weight = $w; (weight, $a) }
+//@ret r
+//@ensures P C06 the-justice-claim-on-a-revoked-htlc-output-records-that-outputs-on-chain-value-and-the-witness-weight-of-its-direction
+    r.1 == output_value_sat(*htlc),
+    r.0 == (if htlc.offered { 243int } else { 249int }) + (if channel_parameters.channel_type_features.anchors_zero_fee_htlc_tx { 3int } else { 0 }),
+//@mutant revoked_htlc_amount_rounded_up
+    amount: htlc.amount_msat / 1000,
+//@with
+    amount: (htlc.amount_msat + 999) / 1000,
+//@end
+//@extract lightning/src/chain/package.rs :: impl PackageSolvingData :: fn finalize_input
+//@capture R15 nth=1
+    sign_counterparty_htlc_transaction(channel_parameters, &bumped_tx, i, &$a1:seq, &outp.per_commitment_point
+//@capture R15 nth=2
+    sign_counterparty_htlc_transaction(channel_parameters, &bumped_tx, i, &$a2:seq, &outp.per_commitment_point
+//@slice R15
+    PackageSolvingData::CounterpartyOfferedHTLCOutput(ref outp) => { let channel_parameters = $cp:seq;
+//@with
+    fn amounts_counterparty_htlc_claims_are_signed_over(outp: &CounterpartyHTLC) -> (u64, u64) { ($a1, $a2) }
+//@ret r
+//@ensures P C07 a-claim-on-a-counterparty-htlc-output-is-signed-over-that-outputs-on-chain-value
+    r.0 == output_value_sat(outp.htlc), r.1 == output_value_sat(outp.htlc),
+//@end
+pub struct CounterpartyHTLC { pub htlc: HTLCOutputInCommitment }
 }
 }
 fn main() {}
